@@ -449,3 +449,151 @@ Qed.
 
 Lemma halfrate_total s flag : pcm_total (snd (halfrate s flag)) = pcm_total s.
 Proof. unfold pcm_total. destruct (st_halfrate s flag) as [-> _]. reflexivity. Qed.
+
+(* ---- termination of the packet/page loops for ARBITRARY page tables ------------------- *)
+
+Definition measure (s : vfs) : nat := (length (v_rem s) + pkt_count (v_rem s) + length (v_q s))%nat.
+
+Lemma measure_make_ready s : measure (make_ready s) = measure s.
+Proof. unfold make_ready. destruct (v_rs s =? STREAMSET); reflexivity. Qed.
+
+Lemma os_pagein_q s pg : (length (v_q (os_pagein s pg)) <= length (v_q s) + length (pg_pkts pg))%nat.
+Proof.
+  unfold os_pagein. destruct (negb (pg_serial pg =? v_serial s)); [lia|].
+  destruct (v_fresh s && pg_cont pg).
+  - destruct (pg_pkts pg) as [|p r]; cbn; [lia|]. rewrite app_length. lia.
+  - cbn. rewrite app_length. lia.
+Qed.
+Lemma os_pagein_rem s pg : v_rem (os_pagein s pg) = v_rem s.
+Proof.
+  unfold os_pagein. destruct (negb (pg_serial pg =? v_serial s)); [reflexivity|].
+  destruct (v_fresh s && pg_cont pg); [destruct (pg_pkts pg)|]; reflexivity.
+Qed.
+
+(* _fetch_and_process_packet's loop always ends: every iteration consumes a
+   queued packet or a page; the fuel the model is given is enough for any state *)
+Lemma fetch_total fuel : forall s, (measure s < fuel)%nat -> fst (fetch fuel s) <> OUT_OF_FUEL.
+Proof.
+  induction fuel as [|f IH]; intros s Hm; [lia|]. cbn [fetch].
+  rewrite <- (measure_make_ready s) in Hm. set (s0 := make_ready s) in *. clearbody s0.
+  destruct ((v_rs s0 =? INITSET) && match v_q s0 with [] => false | _ => true end) eqn:E.
+  - destruct (v_q s0) as [|p q'] eqn:Eq; [rewrite andb_false_r in E; discriminate|].
+    destruct (pk_W p); cbn [fst]; [unfold OUT_OF_FUEL; lia|].
+    apply IH. unfold measure in *. cbn. rewrite Eq in Hm. cbn in Hm. lia.
+  - destruct (v_rem s0) as [|pg rem'] eqn:Er; [cbn; unfold OV_EOF_, OUT_OF_FUEL; lia|].
+    assert (forall s1, v_rem s1 = rem' -> (length (v_q s1) <= length (v_q s0) + length (pg_pkts pg))%nat ->
+                       (measure s1 < f)%nat) as Hstep.
+    { intros s1 H1 H2. unfold measure in *. rewrite H1. rewrite Er in Hm. cbn [length pkt_count] in Hm. lia. }
+    destruct ((v_rs (set_rem s0 rem') =? INITSET) && negb (v_serial (set_rem s0 rem') =? pg_serial pg)).
+    + destruct (pg_bos pg).
+      * destruct (find_link _ _ 0).
+        -- apply IH, Hstep; [rewrite os_pagein_rem; reflexivity|].
+           etransitivity; [apply os_pagein_q|]. cbn. lia.
+        -- apply IH, Hstep; [reflexivity|cbn; lia].
+      * apply IH, Hstep; [reflexivity|cbn; lia].
+    + destruct (v_rs (set_rem s0 rem') <? STREAMSET).
+      * destruct (find_link _ _ 0).
+        -- apply IH, Hstep; [rewrite os_pagein_rem; reflexivity|].
+           etransitivity; [apply os_pagein_q|]. cbn. lia.
+        -- apply IH, Hstep; [reflexivity|cbn; lia].
+      * apply IH, Hstep; [rewrite os_pagein_rem; reflexivity|].
+        etransitivity; [apply os_pagein_q|]. cbn. lia.
+Qed.
+
+Lemma fetch_fuel_enough s : fst (fetch (fetch_fuel s) s) <> OUT_OF_FUEL.
+Proof. apply fetch_total. unfold fetch_fuel, measure. lia. Qed.
+
+Definition packets (s : vfs) : nat := (pkt_count (v_rem s) + length (v_q s))%nat.
+
+Lemma packets_make_ready s : packets (make_ready s) = packets s.
+Proof. unfold make_ready. destruct (v_rs s =? STREAMSET); reflexivity. Qed.
+
+Lemma process_audio_packets s p w : packets (process_audio s p w) = packets s.
+Proof.
+  unfold process_audio. destruct (dec_blockin _ _ _) as [rc d].
+  destruct (negb (pk_gran p =? -1) && negb (pk_eos p)); reflexivity.
+Qed.
+
+(* a fetch never creates packets, and a successful one consumed at least one *)
+Lemma fetch_packets fuel : forall s,
+  (packets (snd (fetch fuel s)) <= packets s)%nat /\
+  (fst (fetch fuel s) = 1 -> (packets (snd (fetch fuel s)) < packets s)%nat).
+Proof.
+  induction fuel as [|f IH]; intros s; cbn [fetch]; [cbn; split; [lia|unfold OUT_OF_FUEL; lia]|].
+  rewrite <- (packets_make_ready s). set (s0 := make_ready s). clearbody s0.
+  destruct ((v_rs s0 =? INITSET) && match v_q s0 with [] => false | _ => true end) eqn:E.
+  - destruct (v_q s0) as [|p q'] eqn:Eq; [rewrite andb_false_r in E; discriminate|].
+    destruct (pk_W p) as [w|]; cbn [fst snd].
+    + unfold packets at 1 3. cbn [v_rem v_q set_q].
+      pose proof (process_audio_packets (set_q s0 q' (v_fresh s0) (v_pno s0)) p w) as Hp.
+      unfold packets in Hp. cbn [v_rem v_q set_q] in Hp.
+      assert (v_rem (process_audio (set_q s0 q' (v_fresh s0) (v_pno s0)) p w) = v_rem s0 /\
+              v_q (process_audio (set_q s0 q' (v_fresh s0) (v_pno s0)) p w) = q') as [Hr Hq].
+      { unfold process_audio. destruct (dec_blockin _ _ _) as [rc d].
+        destruct (negb (pk_gran p =? -1) && negb (pk_eos p)); split; reflexivity. }
+      rewrite Hr, Hq. unfold packets. rewrite Eq. cbn [length]. split; lia.
+    + destruct (IH (set_q s0 q' (v_fresh s0) (v_pno s0 + 1))) as [H1 H2].
+      assert (packets (set_q s0 q' (v_fresh s0) (v_pno s0 + 1)) < packets s0)%nat as Hd
+        by (unfold packets; cbn; rewrite Eq; cbn; lia).
+      split; [lia|intros H; specialize (H2 H); lia].
+  - destruct (v_rem s0) as [|pg rem'] eqn:Er; [cbn; split; [lia|unfold OV_EOF_; lia]|].
+    assert (forall s1, v_rem s1 = rem' -> (length (v_q s1) <= length (v_q s0) + length (pg_pkts pg))%nat ->
+                       (packets s1 <= packets s0)%nat) as Hstep.
+    { intros s1 H1 H2. unfold packets. rewrite H1, Er. cbn [pkt_count]. lia. }
+    assert (forall s1, (packets s1 <= packets s0)%nat ->
+              (packets (snd (fetch f s1)) <= packets s0)%nat /\
+              (fst (fetch f s1) = 1 -> (packets (snd (fetch f s1)) < packets s0)%nat)) as Hrec.
+    { intros s1 Hle. destruct (IH s1) as [H1 H2]. split; [lia|intros H; specialize (H2 H); lia]. }
+    destruct ((v_rs (set_rem s0 rem') =? INITSET) && negb (v_serial (set_rem s0 rem') =? pg_serial pg)).
+    + destruct (pg_bos pg).
+      * destruct (find_link _ _ 0).
+        -- apply Hrec, Hstep; [rewrite os_pagein_rem; reflexivity|].
+           etransitivity; [apply os_pagein_q|]. cbn. lia.
+        -- apply Hrec, Hstep; [reflexivity|cbn; lia].
+      * apply Hrec, Hstep; [reflexivity|cbn; lia].
+    + destruct (v_rs (set_rem s0 rem') <? STREAMSET).
+      * destruct (find_link _ _ 0).
+        -- apply Hrec, Hstep; [rewrite os_pagein_rem; reflexivity|].
+           etransitivity; [apply os_pagein_q|]. cbn. lia.
+        -- apply Hrec, Hstep; [reflexivity|cbn; lia].
+      * apply Hrec, Hstep; [rewrite os_pagein_rem; reflexivity|].
+        etransitivity; [apply os_pagein_q|]. cbn. lia.
+Qed.
+
+Lemma fetch_rc fuel : forall s,
+  fst (fetch fuel s) = 1 \/ fst (fetch fuel s) = OV_EOF_ \/ fst (fetch fuel s) = OUT_OF_FUEL.
+Proof.
+  induction fuel as [|f IH]; intros s; cbn [fetch]; [right; right; reflexivity|].
+  set (s0 := make_ready s). clearbody s0.
+  destruct ((v_rs s0 =? INITSET) && match v_q s0 with [] => false | _ => true end).
+  - destruct (v_q s0) as [|p q']; [right; right; reflexivity|].
+    destruct (pk_W p); [left; reflexivity|apply IH].
+  - destruct (v_rem s0) as [|pg rem']; [right; left; reflexivity|].
+    destruct (_ && _).
+    + destruct (pg_bos pg); [destruct (find_link _ _ 0)|]; apply IH.
+    + destruct (_ <? _); [destruct (find_link _ _ 0)|]; apply IH.
+Qed.
+
+(* ov_read_float's loop always ends, for any page table and any state *)
+Lemma read_float_total fuel : forall s len,
+  0 <= len -> (packets s + 1 < fuel)%nat -> fst (fst (read_float fuel s len)) <> OUT_OF_FUEL.
+Proof.
+  induction fuel as [|f IH]; intros s len Hlen Hm; [lia|]. cbn [read_float].
+  destruct (negb ((if v_rs s =? INITSET then dec_pcmout (v_dec s) else 0) =? 0)) eqn:E.
+  - destruct (dec_read _ _) as [rc d]. cbn [fst].
+    destruct (v_rs s =? INITSET) eqn:Ers; [|cbn in E; discriminate].
+    assert (0 <= dec_pcmout (v_dec s)) as Hp.
+    { unfold dec_pcmout. destruct ((d_ret (v_dec s) >? -1) && (d_ret (v_dec s) <? d_cur (v_dec s))) eqn:E2; lia. }
+    unfold OUT_OF_FUEL. destruct (dec_pcmout (v_dec s) >? len); lia.
+  - pose proof (fetch_packets (fetch_fuel s) s) as [H1 H2].
+    pose proof (fetch_fuel_enough s) as Hf.
+    pose proof (fetch_rc (fetch_fuel s) s) as Hrc.
+    destruct (fetch (fetch_fuel s) s) as [rc s1]. cbn [fst snd] in *.
+    destruct (rc =? OV_EOF_) eqn:Ee; [cbn; unfold OUT_OF_FUEL; lia|].
+    destruct (rc <=? 0) eqn:Ele; [cbn; exact Hf|].
+    apply IH; [exact Hlen|].
+    destruct Hrc as [-> | [-> | ->]]; [specialize (H2 eq_refl); lia| unfold OV_EOF_ in *; lia | unfold OUT_OF_FUEL in *; lia].
+Qed.
+
+Lemma read_fuel_enough s len : 0 <= len -> fst (fst (read_float (read_fuel s) s len)) <> OUT_OF_FUEL.
+Proof. intros H. apply read_float_total; [exact H|]. unfold read_fuel, packets. lia. Qed.
